@@ -1,19 +1,20 @@
 import runner as R
 from props import *
 import C03_ops
+import emitlock_part
 try:
     import C03_kernel
 except ImportError:
     C03_kernel = None
 
-LEAN_MODULES = C03_ops.LEAN_MODULES + ['C14'] + (C03_kernel.LEAN_MODULES if C03_kernel else [])
+LEAN_MODULES = C03_ops.LEAN_MODULES + ['C14'] + emitlock_part.LEAN_MODULES + (C03_kernel.LEAN_MODULES if C03_kernel else [])
 
 MANIFEST = dict(
     text="Operator half, proved in Lean: once the downstream side is closed - by a terminal, by an external Unsubscribe, or from inside a callback - the source has been released before the closing call "
          "returned, for every machine, script and cut (C14.released / cut, C03op.released, released_from_inside); finalizer trees with arbitrary subsets of panicking teardowns: every teardown runs "
          "exactly once, depth first, and the joined panic (root causes in run order, wrapped as unsubscription errors) is raised only after all of them have run (teardown_tree, teardown_every_subset, "
          "teardown_flat); ObserveOn/SubscribeOn, ThrowOnContextCancel and ToChannel release their goroutine in a deferred action of the teardown closure, which runs although an upstream teardown panics (deferred_release; fix 694a874). "
-         "That an operator's returned teardown reaches every upstream subscription is the regenerated SubscribeShape fact (C14.table_ok). Tie: kinds ops/chains/cutin (teardown count of the source probe), "
+         "That an operator's returned teardown reaches every upstream subscription is the regenerated SubscribeShape fact (C14.table_ok); that no operator emits while holding a lock its own teardown takes (so a teardown run from inside a delivery never waits for the emitting goroutine itself) is the regenerated EmitLocks fact (C03lock.no_self_deadlock). Tie: kinds ops/chains/cutin (teardown count of the source probe), "
          "teardown (probe with panicking teardowns below every operator and inside Merge/TakeUntil/CombineLatest set-ups, every subset), leak (goroutines created by the library must not survive the "
          "subscription, for every goroutine/timer-owning operator and each way of ending). Kernel half (races between Complete, Error, Unsubscribe and Add; Add after disposal): see the kernel part when present in this build.",
     technique="Lean 4 proof (run invariants; induction over finalizer trees) + kernel-decided SubscribeShape table + differential correspondence (teardown counters, order of runs, raised value) + goroutine-leak oracle",
@@ -24,7 +25,8 @@ def check(ctx):
     o = C03_ops.parts(ctx)
     rows = R.run_kind(ctx, 'leak', shards=4)
     R.compare(ctx, rows, lambda d: (flag(d), d.get('leaked'), d.get('released')), 'C03 no goroutine of the library survives the subscription', nontrivial=lambda c, gd: True, recheck=2)
-    rules, assumptions, searches, extra = [o['rule_part']], [], [table_search('C14'), o.get('search')], {}
+    el = emitlock_part.parts(ctx)
+    rules, assumptions, searches, extra = [o['rule_part'], el['rule_part']], [], [el['search'], table_search('C14'), o.get('search')], {}
     if C03_kernel:
         k = C03_kernel.parts(ctx)
         rules.append(k.get('rule', ''))
